@@ -230,3 +230,64 @@ Theorem C05_removable_always_accepted :
        exists c2 : curve, c_knot_remove c1 nodes (Some t) = Ok c2.
 Proof. exact removable_succeeds. Qed.
 Print Assumptions C05_removable_always_accepted.
+
+From NurbsV Require Import Spec.BSpline Model.Linalg Model.Quadrature Model.LeastSq Model.CurveLS Proofs.ForcedProofs.
+From NurbsV Require Proofs.UnionProofs.
+(* ---- tolerance=None (Proofs/ForcedProofs.v): a forced removal always succeeds when the vectors are compatible (no error test), and
+   at degree >= 1 the result takes the old curve's values at every remaining distinct knot - at every knot of the new vector, both ends
+   included, under the separation hypothesis. ---- *)
+Theorem C05_forced_removal_interpolates :
+  forall (c : curve) (ns : list Q) (c' : curve) (P : list pt) (d : nat),
+       cW c = None ->
+       cP c = Some P ->
+       WF (kvec (ckv c)) (kdeg (ckv c)) ->
+       length P = knpts (ckv c) ->
+       Forall (fun q : pt => length q = d) P ->
+       c_knot_remove c ns None = Ok c' ->
+       (1 <= kdeg (ckv c'))%nat ->
+       exists P' : list pt,
+         cP c' = Some P' /\
+         cW c' = None /\
+         length P' = knpts (ckv c') /\
+         Forall (fun q : pt => length q = d) P' /\
+         (forall z : Q,
+          In z (kknots (ckv c')) ->
+          Forall2 Qeq (curve_spec (kvec (ckv c')) (kdeg (ckv c')) d P' z)
+            (curve_spec (kvec (ckv c)) (kdeg (ckv c)) d P z)).
+Proof. exact forced_knot_remove_interpolates. Qed.
+Print Assumptions C05_forced_removal_interpolates.
+
+Theorem C05_forced_removal_interpolates_everywhere_separated :
+  forall (c c' : curve) (P : list pt) (d : nat),
+       cW c = None ->
+       cP c = Some P ->
+       WF (kvec (ckv c)) (kdeg (ckv c)) ->
+       length P = knpts (ckv c) ->
+       Forall (fun q : pt => length q = d) P ->
+       (1 <= kdeg (ckv c'))%nat ->
+       forall ns : list Q,
+       c_knot_remove c ns None = Ok c' ->
+       UnionProofs.separated (kvec (ckv c')) ->
+       exists P' : list pt,
+         cP c' = Some P' /\
+         cW c' = None /\
+         length P' = knpts (ckv c') /\
+         Forall (fun q : pt => length q = d) P' /\
+         (forall x : Q,
+          In x (kvec (ckv c')) ->
+          Forall2 Qeq (curve_spec (kvec (ckv c')) (kdeg (ckv c')) d P' x)
+            (curve_spec (kvec (ckv c)) (kdeg (ckv c)) d P x)).
+Proof. exact forced_knot_remove_interpolates_all. Qed.
+Print Assumptions C05_forced_removal_interpolates_everywhere_separated.
+
+Theorem C05_forced_removal_succeeds :
+  forall (c : curve) (ns : list Q) (knew : kv) (T E : mat),
+       cW c = None ->
+       kremove (ckv c) ns = Ok knew ->
+       limits_eqb (ckv c) knew = true ->
+       spline2spline (ckv c) knew (knots_opt knew) = Ok (T, E) ->
+       exists c' : curve,
+         c_knot_remove c ns None = Ok c' /\
+         (c' = c \/ c' = {| ckv := knew; cP := option_map (mat_apply T) (cP c); cW := None |}).
+Proof. exact forced_knot_remove_succeeds. Qed.
+Print Assumptions C05_forced_removal_succeeds.
